@@ -360,9 +360,8 @@ impl Iterator for Cmap12Iter<'_> {
                 // Groups should be in order and non-overlapping so make sure
                 // that the start code of next group is at least
                 // current_end.
-                if next_group.range.start < group.range.end {
-                    next_group.range = group.range.end..next_group.range.end;
-                }
+                next_group.range = next_group.range.start.max(group.range.end)
+                    ..next_group.range.end.max(group.range.end);
                 self.cur_group = Some(next_group);
             }
         }
